@@ -42,17 +42,21 @@ def build(ctx):
     h = os.path.join(vlib.HARN, "C04", "h_dispatch.cpp")
     hd = os.path.join(vlib.HARN, "C04", "hashdump.cpp")
     for tname, (root, subidx, sub) in TABLES.items():
-        # native run of the real perfect-hash search on the same names
-        ninc = ctx.write("gen/%s_names.h" % tname, "static const char *NAMES[] = {%s};\n#define NPORTS %d\n" % (", ".join('"%s"' % n for n in root), len(root)))
-        exe = ctx.wpath("gen", "%s_hashdump" % tname)
-        rc, out, *_ = vlib.sh(["g++", "-std=c++17", "-O0", "-w", "-fno-access-control", "-DNDEBUG", "-I" + os.path.join(vlib.REPO, "include"), "-I" + os.path.join(vlib.REPO, "src/cpp"),
-                               '-DREPO_PORTS="%s/src/cpp/ports.cpp"' % vlib.REPO, '-DTABLE_INC="%s"' % ninc, hd] + ctx.native_lib(("ports.cpp",)) + ["-fsanitize=address", "-o", exe], timeout=600)
-        if rc != 0:
-            ctx.broken.append("hashdump build failed for %s: %s" % (tname, out[-800:]))
-            continue
-        rc, dump, *_ = vlib.sh([exe], timeout=60, env=dict(os.environ, ASAN_OPTIONS="detect_leaks=0"))
-        hashed = "#define H_NPOS 0" not in dump and rc == 0 and "H_NPOS" in dump
-        htext = (dump if hashed else "") + "#define HASHED_ROOT %d\n" % (1 if hashed else 0)
+        # native run of the real perfect-hash search on the same names (root table and sub-table)
+        def hashdump(names, prefix):
+            ninc = ctx.write("gen/%s_%s_names.h" % (tname, prefix), "static const char *NAMES[] = {%s};\n#define NPORTS %d\n" % (", ".join('"%s"' % n for n in names), len(names)))
+            exe = ctx.wpath("gen", "%s_%s_hashdump" % (tname, prefix))
+            rc, out, *_ = vlib.sh(["g++", "-std=c++17", "-O0", "-w", "-fno-access-control", "-DNDEBUG", "-I" + os.path.join(vlib.REPO, "include"), "-I" + os.path.join(vlib.REPO, "src/cpp"),
+                                   '-DREPO_PORTS="%s/src/cpp/ports.cpp"' % vlib.REPO, '-DTABLE_INC="%s"' % ninc, '-DPREFIX="%s"' % prefix, hd] + ctx.native_lib(("ports.cpp",)) + ["-fsanitize=address", "-o", exe], timeout=600)
+            if rc != 0:
+                ctx.broken.append("hashdump build failed for %s/%s: %s" % (tname, prefix, out[-800:]))
+                return False, ""
+            rc, dump, *_ = vlib.sh([exe], timeout=60, env=dict(os.environ, ASAN_OPTIONS="detect_leaks=0"))
+            ok = ("#define %s_NPOS 0\n" % prefix) not in dump and rc == 0 and ("%s_NPOS" % prefix) in dump
+            return ok, dump
+        hashed, dump = hashdump(root, "H")
+        hashed_sub, dump_s = hashdump(sub, "S")
+        htext = (dump if hashed else "") + (dump_s if hashed_sub else "") + "#define HASHED_ROOT %d\n#define HASHED_SUB %d\n" % (1 if hashed else 0, 1 if hashed_sub else 0)
         tinc = ctx.write("gen/%s_table.h" % tname, table_inc(root, subidx, sub, htext))
         # address templates derived from the table: every full path with one position replaced by / one position
         # given an extra / one position losing a character; the replaced or inserted byte is SYMBOLIC (1..126)
@@ -136,7 +140,7 @@ def build(ctx):
                                                       "rtosc_argument_string.0:%d" % max(16, LB + 2), "rtosc_argument_string.1:16", "strncmp.0:%d" % max(10, LB),
                                                       "strlen.0:3", "vsosc_null.0:3", "nreserved.0:3"] + ["rtosc_amessage.%d:3" % k_ for k_ in range(6)],
                                            witness_optional="a leaf was reached",
-                                           descr={"table": {"root": root, "subtree": sub, "lookup": "perfect hash (vectors from the real search)" if hashed else "linear (enumerated / no hash)"},
+                                           descr={"table": {"root": root, "subtree": sub, "lookup": "perfect hash (vectors from the real search)" if hashed else "linear (enumerated / no hash)", "sub-table lookup": "perfect hash" if hashed_sub else "linear"},
                                                   "address": "/" + pre + ("<any byte 1..126>" if sym else "") + post, "location buffer": bool(loc), "type tags": tags, "default handler": bool(dflt)}))
                     q.prepare = (lambda name_, defs_: (lambda q_: q_.sources.__setitem__(0, ctx.ir_translate(name_, h, cxx=True, defines=inc + defs_))))(name, defs)
     ctx.bounds = {"tables": "4 two-level tables (hashed with sub-tree, enumerated with #N sub-tree, hashed with mixed specs, linear with duplicate names)", "address": "every full path of the table with one position replaced by any byte 1..126, one byte inserted, or one character removed (plus the exact paths)",
